@@ -57,16 +57,20 @@ def parse(buf):
         start = pos
         try:
             cnt, pos = dec_long(buf, pos)
+            count_end = pos
             size, pos = dec_long(buf, pos)
+            size_end = pos
             if cnt < 0 or size < 0:
                 raise OcfError('negative block count/size')
             payload, pos = take(buf, pos, size)
+            payload_end = pos
             mk, pos = take(buf, pos, 16)
         except DecodeError as e:
             raise OcfError('block %d: %s' % (len(blocks), e))
         if bytes(mk) != bytes(sync):
             raise OcfError('block %d: sync marker mismatch' % len(blocks))
-        blocks.append({'count': cnt, 'size': size, 'payload': bytes(payload), 'start': start, 'end': pos})
+        blocks.append({'count': cnt, 'size': size, 'payload': bytes(payload), 'start': start, 'end': pos,
+                       'count_end': count_end, 'size_end': size_end, 'payload_end': payload_end})
     codec = meta.get('avro.codec', b'null')
     try:
         codec = codec.decode('ascii')
